@@ -29,6 +29,7 @@ type c05Caller struct {
 	ForceDirect bool
 	SimConnect  bool
 	Cancel      bool // a canceller thread cancels this caller's context at some point
+	After       int  // k+1: this caller calls DialPeer only after caller k has returned (0: at once)
 }
 
 type c05Scn struct {
@@ -43,6 +44,9 @@ type c05Scn struct {
 	Ticks    []time.Duration
 	Bound    int // quick-tier deviation bound for this scenario (thorough adds 1)
 	Thorough bool
+	// AttemptOnTimeout: no cap can keep an address waiting in this scenario, so a caller that is released by the dial
+	// timeout (not by its own context) must still have seen every candidate address handed to a transport while it waited
+	AttemptOnTimeout bool
 }
 
 const (
@@ -120,6 +124,10 @@ func c05Body(sc c05Scn) func(x *vs.Exec) {
 			t.hook = hook
 		}
 		calls := make([]*c05CallRun, len(sc.Callers))
+		returnedCh := make([]chan struct{}, len(sc.Callers))
+		for i := range returnedCh {
+			returnedCh[i] = make(chan struct{})
+		}
 		for i, cs := range sc.Callers {
 			cr := &c05CallRun{spec: cs}
 			calls[i] = cr
@@ -131,12 +139,16 @@ func c05Body(sc c05Scn) func(x *vs.Exec) {
 				ctx = network.WithSimultaneousConnect(ctx, true, "verif")
 			}
 			s.Go(fmt.Sprintf("caller%d", i), func() {
+				if cs.After > 0 {
+					vs.Recv(-9, returnedCh[cs.After-1])
+				}
 				cr.start, cr.startT = vs.Stamp(), time.Now()
 				c, err := env.Swarm.DialPeer(ctx, P.ID)
 				cr.returned++
 				cr.conn, cr.err = c, err
 				cr.ctxErrAtReturn = ctx.Err()
 				cr.end, cr.endT, cr.endIdle = vs.Stamp(), time.Now(), vs.IdleTime()
+				vs.Close(returnedCh[i])
 			})
 			if cs.Cancel {
 				s.GoPrio(fmt.Sprintf("cancel%d", i), 2, func() {
@@ -290,6 +302,20 @@ func c05Oracle(x *vs.Exec, sc c05Scn, env *fxEnv, calls []*c05CallRun, gens map[
 				x.Fail("cancelled-caller-not-released-promptly", "caller %d was cancelled at virtual time %v but returned at %v", i, c.cancelT.Sub(c.startT), c.endT.Sub(c.startT))
 				return
 			}
+			if sc.AttemptOnTimeout && c.ctxErrAtReturn == nil && c.err != nil {
+				for _, a := range sc.Addrs {
+					attempted := false
+					for _, d := range dials {
+						if d.Addr == a && d.Start > c.start && d.Start < c.end {
+							attempted = true
+						}
+					}
+					if !attempted && a != c05NoTpt {
+						x.Fail("address-never-attempted-before-timeout", "caller %d waited %v (the dial timeout) and returned %q, but address %s - neither filtered out nor in back-off, no cap in its way - was never handed to a transport while it waited (dials: %s)", i, c.endT.Sub(c.startT), c.err, a, c05Outcome(env, calls))
+						return
+					}
+				}
+			}
 			continue
 		}
 		if false {
@@ -420,6 +446,8 @@ func c05Scenarios(thorough bool) []c05Scn {
 		{Name: "sim-connect, 3 addrs dialled at once: ok then two failures", Addrs: []string{c05TCP1, c05TCP2, c05TCP3}, Script: map[string][]string{c05TCP1: {fxOK}, c05TCP2: {fxFail}, c05TCP3: {fxFail}}, Callers: []c05Caller{{SimConnect: true}, {SimConnect: true}}, Bound: 1},
 		{Name: "quic + two ip6 tcp + ip4 tcp (one ranking group, happy-eyeballs reordering), all fail", Addrs: []string{c05QUIC, c05TCP6a, c05TCP6b, c05TCP1},
 			Script: map[string][]string{c05QUIC: {fxFail}, c05TCP6a: {fxFail}, c05TCP6b: {fxFail}, c05TCP1: {fxFail}}, Callers: one},
+		{Name: "a new caller arrives after the previous worker's only caller was cancelled (perPeer=1, the dial hangs)", Addrs: []string{c05TCP1}, Script: map[string][]string{},
+			Callers: []c05Caller{{Cancel: true}, {After: 1}}, PerPeer: 1, AttemptOnTimeout: true},
 		{Name: "last address fails while a caller with a new address joins", Addrs: []string{c05TCP1}, LateAddr: c05TCP2, Script: map[string][]string{c05TCP1: {fxFail}, c05TCP2: {fxOK}}, Callers: two},
 		{Name: "tcp + relay, force-direct and plain caller", Addrs: []string{c05TCP1, "RELAY"}, Script: map[string][]string{c05TCP1: {fxFail}, "RELAY": {fxOK}}, Callers: []c05Caller{{ForceDirect: true}, {}}},
 		{Name: "fd=1: ok and hang, caller 1 cancelled", Addrs: []string{c05TCP1, c05TCP2}, Script: map[string][]string{c05TCP1: {fxOK}}, Callers: []c05Caller{{}, {Cancel: true}}, FD: 1, PerPeer: 2, Ticks: []time.Duration{251 * time.Millisecond}},
